@@ -641,29 +641,55 @@ def check_attr_table(prog, fv, r):
     if code_sw is None:
         r.unanalysable("Attribute::decode: switch on `code` not found", fv.loc())
         return
-    # Err(()) constructions assigned to _0 and not from `?`
+    # Err(()) returns that are written out (not from `?`), read off the entry->return paths: the attribute codes the path is
+    # restricted to and the other branch outcomes on it, with locals that hold a constant on that path replaced by the
+    # constant (`let size = match code { COMMUNITY => 4, .. }; if !len.is_multiple_of(size)` reads as is_multiple_of(len, 4))
+    from ..paths import enumerate_paths, PathLimit
     table = {}
-    cds = fv.control_deps()
+    err_blocks = set()
     for b in sorted(fv.live):
         for s in fv.blocks[b]["s"]:
             rv = s.get("rv")
             if rv and rv["r"] == "agg" and rv.get("k") == "adt" and rv["v"] == "Err" and s["p"]["l"] == 0 and not s.get("x"):
-                gs = flat_guards(fv, b, brs)
-                codes = None
-                atoms = set()
-                for g, l, h in gs:
-                    if g == code_sw.expr:
-                        codes = l
+                err_blocks.add(b)
+    try:
+        dpaths = enumerate_paths(fv, Renderer(fv), max_paths=40000)
+    except PathLimit:
+        dpaths = None
+        r.unanalysable("Attribute::decode: too many paths", fv.loc())
+
+    def subst(e, env):
+        if not isinstance(e, tuple) or not e:
+            return e
+        if e[0] == "var":
+            for l, n in fv.local_name.items():
+                if n == e[1] and isinstance(env.get((l, ())), int) and l > fv.f["argc"]:
+                    return ("const", env[(l, ())], None, None)
+            return e
+        return tuple(subst(x, env) if isinstance(x, tuple) and x and isinstance(x[0], str) else
+                     (tuple(subst(y, env) for y in x) if isinstance(x, tuple) else x) for x in e)
+    for conds, blocks, env in (dpaths or []):
+        if not (err_blocks & set(blocks)):
+            continue
+        codes = None
+        atoms = set()
+        for br, labels in conds:
+            if br.expr == code_sw.expr:
+                if "else" in labels:
+                    # the catch-all arm of a (nested) match on the code: every code not listed there
+                    listed = {str(v) for v, _ in br.cases}
+                    if codes is not None:
+                        codes = {c for c in codes if c not in listed}
                     else:
-                        atoms.add(atom(g, l))
-                # `a || b` error conditions: no single outcome is necessary; take direct control dependences too
-                for (cb, cl, cs) in cds.get(b, ()):
-                    if cb in brs and brs[cb].expr != code_sw.expr:
-                        atoms.add(atom(brs[cb].expr, {brs[cb].label(prog, cl)}))
-                if codes is None:
-                    continue
-                for c in codes:
-                    table.setdefault(c, set()).update(atoms)
+                        codes = {str(c) for c in ATTR_RULES if str(c) not in listed}
+                else:
+                    codes = set(labels) if codes is None else (codes & set(labels))
+            else:
+                atoms.add(atom(subst(br.expr, env), set(labels)))
+        if not codes:
+            continue
+        for c in codes:
+            table.setdefault(c, set()).update(atoms)
     for code, reqs in sorted(ATTR_RULES.items()):
         atoms = table.get(str(code), set())
         for rq in reqs:
